@@ -103,3 +103,26 @@ func (db *Database) GetZSetRecord(key string) (*Record, *ZSet, error) {
 	}
 	return record, zset, nil
 }
+
+// RemoveRecordIfEmpty removes the record when its container has no elements,
+// because an empty list, set, sorted set or hash does not exist in Redis.
+func (db *Database) RemoveRecordIfEmpty(key string) {
+	record, ok := db.GetRecord(key)
+	if !ok {
+		return
+	}
+	isEmpty := false
+	switch data := record.Data.(type) {
+	case *List:
+		isEmpty = (data.Len() == 0)
+	case *Set:
+		isEmpty = (len(data.members) == 0)
+	case *ZSet:
+		isEmpty = (len(data.members) == 0)
+	case Hash:
+		isEmpty = (len(data) == 0)
+	}
+	if isEmpty {
+		db.RemoveRecord(key)
+	}
+}
